@@ -8,6 +8,7 @@ package interceptor
 // an allowed / a forbidden local name} x {bypass header, no header}.
 
 import (
+	"bytes"
 	"context"
 	"fmt"
 	"strings"
@@ -109,6 +110,12 @@ func TestVerifC16(t *testing.T) {
 					pads := []string{"skippable-event-before", "skippable-event-after"}
 					if vrt.PathBlobField(p) != "" {
 						pads = append(pads, "json-encoded-blob", "skippable-event-before+json-encoded-blob")
+						// (event types every older server knows: the repair decodes the batch with the legacy schema)
+						switch vrt.PathEventType(p) {
+						case "EVENT_TYPE_SIGNAL_EXTERNAL_WORKFLOW_EXECUTION_INITIATED", "EVENT_TYPE_START_CHILD_WORKFLOW_EXECUTION_INITIATED",
+							"EVENT_TYPE_REQUEST_CANCEL_EXTERNAL_WORKFLOW_EXECUTION_INITIATED", "EVENT_TYPE_CHILD_WORKFLOW_EXECUTION_STARTED":
+							pads = append(pads, "repairable-invalid-utf8-event-before")
+						}
 					}
 					for _, pad := range pads {
 						c2 := c
@@ -143,7 +150,15 @@ func TestVerifC16(t *testing.T) {
 			// by the code, which would make "forbidden here only" vacuous)
 			fillWith := "plain-allowed"
 			vrt.FillEmptyNames(msg, fillWith)
+			if c.pad == "repairable-invalid-utf8-event-before" {
+				vfCorruptMarker(msg)
+			}
 			replay := map[string]any{"root": j.root.String(), "path": p.String(), "case": c.kind, "header": c.header}
+			if c.mustRefuse {
+				// the verdict may not depend on earlier traffic: the same long-lived interceptors have just seen a request of
+				// this very type that names no namespace at all (what a per-type shortcut would remember)
+				_, _, _ = run(j.root, vrt.NewMessage(j.root.MD).Interface(), c.translation, c.header)
+			}
 			denied, calls, err := run(j.root, msg, c.translation, c.header)
 			if c.mustRefuse {
 				atomic.AddInt64(&nontrivial, 1)
@@ -159,13 +174,34 @@ func TestVerifC16(t *testing.T) {
 	res.Set("evaluations", evals)
 	res.Set("distinct_nontrivial", nontrivial)
 	res.Set("request_paths", int64(len(jobs)))
-	res.Set("rule", "every request type of WorkflowService and AdminService x every structural namespace path (incl. blob-encoded ones) x {forbidden here only, allowed here + forbidden at the next path, allowed everywhere} (for paths through history events also with a namespace-free event before / after the one on the path) x {bypass header, no header} through ACL alone and through translation -> ACL (chain order of makeServerOptions), plus remote names that map to an allowed / a forbidden local name; non-trivial = must be refused")
+	res.Set("rule", "every request type of WorkflowService and AdminService x every structural namespace path (incl. blob-encoded ones) x {forbidden here only, allowed here + forbidden at the next path, allowed everywhere} (for paths through history events also with a namespace-free event before / after the one on the path) x {bypass header, no header} through ACL alone and through translation -> ACL (chain order of makeServerOptions), plus remote names that map to an allowed / a forbidden local name; every must-refuse case is preceded, on the same long-lived interceptors, by a request of the same type that names no namespace; non-trivial = must be refused")
 	res.Set("exhaustive", true)
 	if len(jobs) > 0 {
 		res.Sample(map[string]any{"root": jobs[0].root.String(), "path": jobs[0].paths[jobs[0].i].String(), "case": "forbidden-here-only"})
 		res.Sample(map[string]any{"root": jobs[len(jobs)-1].root.String(), "path": jobs[len(jobs)-1].paths[jobs[len(jobs)-1].i].String(), "case": "remote-name-mapped-to-forbidden"})
 	}
 	res.Assume("the interceptor chain is assembled as makeServerOptions does (translation before ACL); the wiring part of this check verifies that order end to end on a real ClusterConnection")
+}
+
+// vfCorruptMarker turns the marker "MSG~" inside every encoded batch of msg into invalid UTF-8 (same length).
+func vfCorruptMarker(msg proto.Message) {
+	_, _ = vrt.Visit(msg.ProtoReflect(), false, func(c protoreflect.Message, fd protoreflect.FieldDescriptor) bool {
+		if !vrt.EventBlobFields[fd.FullName()] {
+			return false
+		}
+		fix := func(b protoreflect.Message) {
+			dfd := b.Descriptor().Fields().ByName("data")
+			b.Set(dfd, protoreflect.ValueOfBytes(bytes.ReplaceAll(b.Get(dfd).Bytes(), []byte("MSG~"), []byte("MSG\xff"))))
+		}
+		if fd.IsList() {
+			for i := 0; i < c.Get(fd).List().Len(); i++ {
+				fix(c.Get(fd).List().Get(i).Message())
+			}
+		} else {
+			fix(c.Get(fd).Message())
+		}
+		return false
+	})
 }
 
 // vfBuildAtPadded is vfBuildAt with, in every repeated HistoryEvent field on the way, one more event of a type that
@@ -176,6 +212,12 @@ func vfBuildAtPadded(root vfRoot, p vrt.Path, value string, pad string) proto.Me
 			m.Set(leaf, protoreflect.ValueOfString(value))
 		},
 		Decorate: vrt.DecorateEvent,
+	}
+	if pad == "repairable-invalid-utf8-event-before" {
+		// the batch comes from an older server: an event before the one on the path has invalid UTF-8 in its failure
+		// message (the marker is turned into an invalid byte in the encoded batch), which the proxy repairs
+		o.Pad = vrt.PadFailedActivityEvent
+		return vrt.BuildForPath(root.MD, p, o) // (vfCorruptMarker is applied by the caller, last)
 	}
 	switch strings.TrimSuffix(strings.TrimSuffix(pad, "json-encoded-blob"), "+") {
 	case "skippable-event-before":
